@@ -779,7 +779,11 @@ class NestedSampler(BaseNestedSampler):
             self.proposal = self._flow_proposal
 
         if live_points and self.live_points is None and not self.finalised:
+            # The initial live points must always be drawn from the prior
+            proposal = self.proposal
+            self.proposal = self._uninformed_proposal
             self.populate_live_points()
+            self.proposal = proposal
             flags[2] = True
 
         if self.condition > self.tolerance:
